@@ -91,10 +91,32 @@ def root(n: size, k: index, x: f32[n + 8], y: f64[n + 8]):
     return GenProgram(HEADER + body, "root", [], [], {"template": "two_precisions", "prefer_ops": ["divide_loop", "simplify", "bind_expr"]})
 
 
+def t_replace_sum(rng):
+    """a block whose replacement by a call needs window offsets that are sums of several loop
+    iterators: the order of the terms in the solved arguments must not depend on the process"""
+    vs = rng.sample(["io", "ii", "jo", "ji", "t"], rng.choice([3, 3, 4]))
+    heads = "\n".join("    " * (k + 1) + f"for {v} in seq(0, {rng.choice([2, 3, 4])}):" for k, v in enumerate(vs))
+    ind = "    " * (len(vs) + 1)
+    row = " + ".join(vs)
+    col = " + ".join(f"{rng.choice([1, 2, 3])} * {v}" if rng.random() < 0.5 else v for v in vs)
+    body = f"""@proc
+def sub(n: size, x: [f32][n]):
+    for k in seq(0, n):
+        x[k] = 0.0
+
+@proc
+def root(A: f32[64, 64]):
+{heads}
+{ind}for k in seq(0, 8):
+{ind}    A[{row}, {col} + k] = 0.0
+"""
+    return GenProgram(HEADER + body, "root", ["sub"], [], {"template": "replace_sum", "op_sequence": ["replace", "simplify"], "prefer_ops": ["replace", "std.replace_all"]})
+
+
 def _template(rng):
     from ..templates import any_template
 
-    return rng.choice([t_same_name_sum, t_same_name_sum, t_two_precisions, any_template, any_template])(rng)
+    return rng.choice([t_same_name_sum, t_same_name_sum, t_replace_sum, t_replace_sum, t_two_precisions, any_template, any_template])(rng)
 
 
 def record_sessions(ctx, n, script_len):
